@@ -76,6 +76,8 @@ func sharedSpec(version int) *rstep.ASpec {
 		"nfail": {Action: actlang.P(true, tick, Op{K: actlang.Emit, V: "lost"}, Op{K: actlang.Throw}), Branches: []rstep.ABranch{{Target: "start"}}},
 		"jfail": {Action: actlang.P(false, tick, Op{K: actlang.Emit, V: "lost"}, tick, Op{K: actlang.Throw}), Branches: []rstep.ABranch{{Target: "start"}}},
 		"errh":  {Type: "message", Branches: []rstep.ABranch{{Pattern: M{"go": "?g"}, Target: "a"}}},
+		// the versions do not have the same node set: each has a node of its own
+		fmt.Sprintf("only-in-v%d", version): {Type: "message", Branches: []rstep.ABranch{{Pattern: M{"go": "?g"}, Target: "start"}}},
 	}}
 }
 
